@@ -231,9 +231,24 @@ def r2(ctx):
                              f"must win (NULL {kind.upper()} {other} = {other}; e.g. NOT (NULL AND FALSE) is TRUE)")
             else:
                 probs.append(f"early return of `{unparse(v)}` which is not the absorbing value {absorbing}")
+        pm_ = f.module.parents()
+        # the operand value: bound from a call of the loop variable
+        vnames = {n.targets[0].id for n in walk_local(loop) if isinstance(n, ast.Assign) and len(n.targets) == 1
+                  and isinstance(n.targets[0], ast.Name) and isinstance(n.value, ast.Call) and isinstance(n.value.func, ast.Name)
+                  and isinstance(loop.target, ast.Name) and n.value.func.id == loop.target.id}
+        ctx.require(len(vnames) == 1, f"{f.key}: operand value local not understood")
+        vname = next(iter(vnames))
+        absorbing_rets = [r for r in walk_local(loop) if isinstance(r, ast.Return) and isinstance(r.value, ast.Constant) and r.value.value is absorbing]
+        if not absorbing_rets:
+            probs.append(f"never returns {absorbing} from inside the loop: a {str(absorbing).upper()} operand must decide the result "
+                         f"whatever the other operands are")
+        for r in absorbing_rets:
+            atoms = set(guard_atoms(lexical_guards(pm_, r, stop=loop)))
+            if (vname, absorbing) not in atoms:
+                probs.append(f"returns {absorbing} from inside the loop but not under `{'' if absorbing else 'not '}{vname}` "
+                             f"(guards: {sorted(atoms)})")
         after = cl.body[cl.body.index(loop) + 1:]
         flags = set()
-        pm_ = f.module.parents()
         for st in walk_stmts(loop.body):
             if isinstance(st, (ast.Assign, ast.AugAssign)):
                 t = st.targets[0] if isinstance(st, ast.Assign) else st.target
@@ -563,6 +578,175 @@ def _assigned_from_call(fn, suffix):
     return out
 
 
+# ---------------------------------------------------------------------- R5: identity tokens (shard ids) are optional VALUES
+TOKEN_NAMES = ("identity_token", "_identity_token")
+
+
+def _tokenish(e, aliases=()):
+    if isinstance(e, ast.Attribute):
+        return e.attr in TOKEN_NAMES
+    if isinstance(e, ast.Name):
+        return e.id in TOKEN_NAMES or e.id in aliases
+    return False
+
+
+def _token_aliases(fn):
+    """locals of fn that hold an identity token: bound from a token-valued expression, or handed on as `identity_token=<name>`"""
+    al = set()
+    for n in walk_local(fn):
+        if isinstance(n, ast.Assign) and len(n.targets) == 1 and isinstance(n.targets[0], ast.Name) and _tokenish(n.value):
+            al.add(n.targets[0].id)
+        if isinstance(n, ast.Call):
+            for k in n.keywords:
+                if k.arg == "identity_token" and isinstance(k.value, ast.Name):
+                    al.add(k.value.id)
+    return al
+
+
+def _is_none_test(e, aliases=()):
+    """(token expr, True if `is None` / False if `is not None`) for a comparison of a token with None, else None"""
+    if isinstance(e, ast.Compare) and len(e.ops) == 1 and isinstance(e.ops[0], (ast.Is, ast.IsNot)) \
+            and isinstance(e.comparators[0], ast.Constant) and e.comparators[0].value is None and _tokenish(e.left, aliases):
+        return e.left, isinstance(e.ops[0], ast.Is)
+    return None
+
+
+def _token_tests(fn):
+    """[(kind, node shown, token expr)] for every boolean test in fn that involves an identity-token-valued expression;
+    kind: 'none' (is None / is not None), 'cmp' (==, !=, in), 'truth' (truthiness: if x / not x / x and.. / x or.. / bool(x))"""
+    aliases = _token_aliases(fn)
+    pm = {ch: p for p in ast.walk(fn) for ch in ast.iter_child_nodes(p)}
+    out = []
+    for e in walk_local(fn):
+        if not (isinstance(e, (ast.Name, ast.Attribute)) and isinstance(getattr(e, "ctx", None), ast.Load) and _tokenish(e, aliases)):
+            continue
+        par = pm.get(e)
+        if isinstance(par, ast.Compare) and len(par.ops) == 1:
+            if _is_none_test(par, aliases) and par.left is e:
+                out.append(("none", par, e))
+            elif isinstance(par.ops[0], (ast.Eq, ast.NotEq, ast.In, ast.NotIn)) and not any(x[1] is par for x in out):
+                out.append(("cmp", par, e))
+            continue
+        truth = (
+            (isinstance(par, (ast.If, ast.While, ast.IfExp, ast.Assert)) and par.test is e)
+            or (isinstance(par, ast.comprehension) and any(i is e for i in par.ifs))
+            or isinstance(par, ast.BoolOp)
+            or (isinstance(par, ast.UnaryOp) and isinstance(par.op, ast.Not))
+            or (isinstance(par, ast.Call) and isinstance(par.func, ast.Name) and par.func.id == "bool" and par.args and par.args[0] is e)
+        )
+        if truth:
+            out.append(("truth", par if isinstance(par, (ast.UnaryOp, ast.BoolOp, ast.Call)) else e, e))
+    return out
+
+
+@R.rule("C43-R5", floor=13, template="T-GUARD/T-SIBLING",
+        desc="an identity token (shard id) is an optional VALUE: every boolean test of an identity-token-valued expression in "
+             "orm/ and ext/ is `is None` / `is not None` or a comparison with another token, never truthiness (0 and '' are "
+             "valid tokens); the in-session objects an evaluated UPDATE/DELETE synchronises are filtered by mapper, by "
+             "not-expired and -- exactly when a token was given -- by equality of the state's token with it")
+def r5(ctx):
+    # ---- (a) family: all tests on token-valued expressions
+    n_tests = 0
+    for m in ctx.index.all_modules():
+        if not (m.relpath.startswith("orm/") or m.relpath.startswith("ext/")) or "identity_token" not in m.source:
+            continue
+        for fi in ctx.index.all_functions(m):
+            if fi.type_only or fi.is_overload:
+                continue
+            tests = _token_tests(fi.node)
+            if not tests:
+                continue
+            ctx.functions_analysed.add(fi.key)
+            seen = {}
+            for kind, shown, tok in sorted(tests, key=lambda t: (t[1].lineno, t[1].col_offset)):
+                n_tests += 1
+                txt = unparse(shown).replace("\n", " ")
+                seen[txt] = seen.get(txt, 0) + 1
+                key = f"{fi.key}:token-test[{txt}]" + (f"#{seen[txt]}" if seen[txt] > 1 else "")
+                loc = f"{m.path}:{shown.lineno}"
+                ctx.check(kind != "truth", key,
+                          f"`{unparse(tok)}` holds an identity token and is tested for truthiness in `{txt}`: the falsy tokens 0 and '' "
+                          f"(e.g. integer shard ids starting at 0) are treated as 'no token', so the token is dropped / its filter skipped; "
+                          f"optional-token tests must be `is None` / `is not None`",
+                          "is None / is not None" if kind == "none" else "comparison of two tokens", loc)
+    ctx.require(n_tests >= 8, f"only {n_tests} tests on identity tokens found in orm/ and ext/ (rule went blind)")
+    # ---- (b) the evaluate synchroniser: which in-session objects are candidates
+    f = ctx.func(f"{BP}::_BulkUDCompileState._get_matched_objects_on_criteria")
+    pm = f.module.parents()
+    aliases = _token_aliases(f.node)
+    apps = [c for c in calls_in(f.node) if (call_name(c) or "").endswith(".append")]
+    ctx.require(apps, f"{f.key}: no result.append(...) found")
+    loop = None
+    for anc in _ancestors_of(pm, apps[0], f.node):
+        if isinstance(anc, ast.For):
+            loop = anc
+    ctx.require(loop is not None and isinstance(loop.iter, ast.Name), f"{f.key}: matching loop over a named candidate list not found")
+    cand = loop.iter.id
+
+    def filter_conds():
+        """[(cond expr, statement-level guards, binds-candidates?)] of every filtering position that feeds the loop"""
+        out = []
+        for n in walk_local(f.node):
+            if isinstance(n, ast.Assign) and len(n.targets) == 1 and isinstance(n.targets[0], ast.Name) and n.targets[0].id == cand \
+                    and isinstance(n.value, (ast.ListComp, ast.GeneratorExp)):
+                for gen in n.value.generators:
+                    for i in gen.ifs:
+                        out.append((i, lexical_guards(pm, n, stop=f.node)))
+        for t_, pol in lexical_guards(pm, apps[0], stop=loop):
+            if pol:
+                out.append((t_, []))
+        return out
+
+    conds = filter_conds()
+    ctx.require(conds, f"{f.key}: no filter over the candidate states found")
+
+    def conjuncts(e):
+        if isinstance(e, ast.BoolOp) and isinstance(e.op, ast.And):
+            for v in e.values:
+                yield from conjuncts(v)
+        else:
+            yield e
+
+    atoms = [(c, guards) for e, guards in conds for c in conjuncts(e)]
+    has_isa = any(isinstance(c, ast.Call) and (call_name(c) or "").endswith(".mapper.isa") and not guards for c, guards in atoms)
+    ctx.check(has_isa, f"{f.key}:filter[mapper]", "candidates are not unconditionally restricted to states whose mapper isa() the statement's mapper",
+              "state.mapper.isa(mapper)", f.loc)
+    has_exp = any(isinstance(c, ast.UnaryOp) and isinstance(c.op, ast.Not) and isinstance(c.operand, ast.Attribute)
+                  and c.operand.attr == "expired" and not guards for c, guards in atoms)
+    ctx.check(has_exp, f"{f.key}:filter[not-expired]", "fully expired states are not excluded from evaluation", "not state.expired", f.loc)
+    # token filter: an equality of <state>.identity_token with the statement's token whose only bypass is "no token given"
+    probs, found = [], False
+    for c, guards in atoms:
+        alts = list(c.values) if isinstance(c, ast.BoolOp) and isinstance(c.op, ast.Or) else [c]
+        eqs = [a for a in alts if isinstance(a, ast.Compare) and len(a.ops) == 1 and isinstance(a.ops[0], ast.Eq)
+               and _tokenish(a.left, aliases) and _tokenish(a.comparators[0], aliases)
+               and any(isinstance(x, ast.Attribute) and x.attr == "identity_token" for x in (a.left, a.comparators[0]))]
+        if not eqs:
+            continue
+        found = True
+        for a in alts:
+            if a in eqs:
+                continue
+            nt = _is_none_test(a, aliases)
+            if not (nt and nt[1]):
+                probs.append(f"the token filter is bypassed when `{unparse(a)}` (only `<token> is None` may bypass it)")
+        for t_, pol in guards:
+            nt = _is_none_test(t_, aliases)
+            if not (nt and nt[1] != pol):
+                probs.append(f"the token filter is applied only when `{'' if pol else 'not '}{unparse(t_)}` (only `<token> is not None` may enable it)")
+    if not found:
+        probs.append("no filter `state.identity_token == <token of the statement>` is applied to the candidate states: objects of "
+                     "other shards that satisfy the criteria in Python are synchronised although their rows were not touched")
+    ctx.check(not probs, f"{f.key}:filter[identity-token]", "; ".join(probs), "token equality, bypassed only by `token is None`", f.loc)
+
+
+def _ancestors_of(pm, node, stop):
+    cur = pm.get(node)
+    while cur is not None and cur is not stop:
+        yield cur
+        cur = pm.get(cur)
+
+
 # ------------------------------------------------------------------------------------ self-test
 # R1
 R.mutant("straight-none-check-dropped", EV,
@@ -634,4 +818,46 @@ R.mutant("benign-mod-raises", EV,
 R.mutant("benign-logging-in-matched", BP,
          sub("        result = []\n        for obj, state, dict_ in raw_data:\n            evaled_condition = eval_condition(obj)\n",
              "        result = []\n        n_seen = 0\n        for obj, state, dict_ in raw_data:\n            n_seen += 1\n            evaled_condition = eval_condition(obj)\n"),
+         None)
+
+# ---- round 3 (str-q): seeds C43_1 / C43_2 and the families they belong to
+_AND_NULL = "                if value is None or value is _NO_OBJECT:\n                    has_null = True\n                elif not value:\n                    return False\n            if has_null:\n                return None\n            return True\n"
+R.mutant("seed-and-returns-null-at-first-null", EV,
+         sub(_AND_NULL, "                if value is None or value is _NO_OBJECT:\n                    return None\n                elif not value:\n                    return False\n            return True\n"),
+         "C43-R2")
+R.mutant("and-never-returns-false", EV,
+         sub(_AND_NULL, "                if value is None or value is _NO_OBJECT:\n                    has_null = True\n                elif not value:\n                    has_null = True\n            if has_null:\n                return None\n            return True\n"),
+         "C43-R2")
+R.mutant("and-false-on-true-operand", EV,
+         sub(_AND_NULL, "                if value is None or value is _NO_OBJECT:\n                    has_null = True\n                elif value:\n                    return False\n            if has_null:\n                return None\n            return True\n"),
+         "C43-R2")
+R.mutant("benign-and-null-recorded-with-continue", EV,
+         sub(_AND_NULL, "                if value is None or value is _NO_OBJECT:\n                    has_null = True\n                    continue\n                if not value:\n                    return False\n            if has_null:\n                return None\n            return True\n"),
+         None)
+_MATCH_OLD = "        raw_data = [\n            (state.obj(), state, state.dict)\n            for state in states\n            if state.mapper.isa(mapper) and not state.expired\n        ]\n\n        identity_token = update_options._identity_token\n        if identity_token is not None:\n            raw_data = [\n                (obj, state, dict_)\n                for obj, state, dict_ in raw_data\n                if state.identity_token == identity_token\n            ]\n"
+R.mutant("seed-matched-objects-token-filter-by-truthiness", BP,
+         sub(_MATCH_OLD, "        identity_token = update_options._identity_token\n\n        raw_data = [\n            (state.obj(), state, state.dict)\n            for state in states\n            if state.mapper.isa(mapper)\n            and not state.expired\n            and (not identity_token or state.identity_token == identity_token)\n        ]\n"),
+         "C43-R5")
+R.mutant("matched-objects-token-filter-dropped", BP,
+         sub(_MATCH_OLD, "        raw_data = [\n            (state.obj(), state, state.dict)\n            for state in states\n            if state.mapper.isa(mapper) and not state.expired\n        ]\n"),
+         "C43-R5")
+R.mutant("matched-objects-token-filter-only-for-modified", BP,
+         sub("        if identity_token is not None:\n            raw_data = [\n                (obj, state, dict_)\n                for obj, state, dict_ in raw_data\n                if state.identity_token == identity_token\n",
+             "        if identity_token is not None:\n            raw_data = [\n                (obj, state, dict_)\n                for obj, state, dict_ in raw_data\n                if state.modified or state.identity_token == identity_token\n"),
+         "C43-R5")
+R.mutant("matched-objects-mapper-filter-dropped", BP,
+         sub("            if state.mapper.isa(mapper) and not state.expired\n", "            if not state.expired\n"), "C43-R5")
+R.mutant("fetch-sync-token-test-by-truthiness", BP,
+         sub("                if update_options._identity_token is None\n                or identity_token == update_options._identity_token\n",
+             "                if not update_options._identity_token\n                or identity_token == update_options._identity_token\n"),
+         "C43-R5")
+R.mutant("shard-lookup-token-test-by-truthiness", "ext/horizontal_shard.py",
+         sub("        if identity_token is not None:\n            obj = super()._identity_lookup(", "        if identity_token:\n            obj = super()._identity_lookup("),
+         "C43-R5")
+R.mutant("benign-matched-objects-single-pass", BP,
+         sub(_MATCH_OLD, "        identity_token = update_options._identity_token\n\n        raw_data = [\n            (state.obj(), state, state.dict)\n            for state in states\n            if state.mapper.isa(mapper)\n            and not state.expired\n            and (identity_token is None or state.identity_token == identity_token)\n        ]\n"),
+         None)
+# the repair of the R5 finding must not raise anything new
+R.mutant("fix-get-options-token-is-not-none", "orm/loading.py",
+         sub("    if identity_token:\n        load_options[\"_identity_token\"] = identity_token\n", "    if identity_token is not None:\n        load_options[\"_identity_token\"] = identity_token\n"),
          None)
